@@ -182,9 +182,16 @@ pub fn scan<V: Vary>(
 
     // dv/dx is constant for the whole polygon; precompute it
     let dv_dx = {
-        let (l0, r0) = (l0.step(&dl_dy), r0.step(&dr_dy));
-        let dx = r0.0.x() - l0.0.x();
-        l0.dv_dt(&r0, dx.recip())
+        // Measure it along the wider of the two bases. Any other row may be
+        // degenerate: in particular, the row one unit below the top has zero
+        // width if the polygon is a downward-pointing triangle of height one.
+        let dx0 = r0.0.x() - l0.0.x();
+        let dx1 = r1.0.x() - l1.0.x();
+        if dx0 * dx0 >= dx1 * dx1 {
+            l0.dv_dt(r0, dx0.recip())
+        } else {
+            l1.dv_dt(r1, dx1.recip())
+        }
     };
 
     // Find the y value of the next pixel center (.5) vertically
